@@ -3,9 +3,31 @@ From RV Require Import Base.Wire Base.Text Device.DBuzzer Device.MelodySpec Gen.
 Import ListNotations.
 Open Scope Z_scope.
 
-(* what a case may contain: device calls and getter reads (printed by the script) *)
+(* a frequency-type argument: a number, or an expression over a getter of the same buzzer evaluated in
+   the state the call is made in:  get_last_frequency() * a + b  /  get_frequency() * a + b *)
+Inductive aexp : Type :=
+| ALit (q : Q)
+| ALast (a b : Q)
+| ACur (a b : Q).
+
+Definition aeval (st : bz) (x : aexp) : Q :=
+  match x with
+  | ALit q => q
+  | ALast a b => Qred (get_last_frequency st * a + b)
+  | ACur a b => Qred (get_frequency st * a + b)
+  end.
+
+Definition un_ax (v : wv) : option aexp :=
+  match v with
+  | WL [WI 1; a; b] => match un_q a, un_q b with Some a, Some b => Some (ALast a b) | _, _ => None end
+  | WL [WI 2; a; b] => match un_q a, un_q b with Some a, Some b => Some (ACur a b) | _, _ => None end
+  | _ => match un_q v with Some q => Some (ALit q) | None => None end
+  end.
+
+(* what a case may contain: device calls (the op is built in the current state; [shown] lists the values of
+   its frequency-type arguments, reported back to the harness) and getter reads (printed by the script) *)
 Inductive item : Type :=
-| Call (o : op)
+| Call (mk : bz -> op) (shown : bz -> list Q)
 | GetState | GetFrequency | GetLast.
 
 Definition un_qopt (v : wv) : option (option Q) :=
@@ -15,25 +37,46 @@ Definition un_qopt (v : wv) : option (option Q) :=
   | _ => None
   end.
 
+Definition un_axopt (v : wv) : option (option aexp) :=
+  match v with
+  | WL [] => Some None
+  | WL [x] => match un_ax x with Some q => Some (Some q) | None => None end
+  | _ => None
+  end.
+
+Definition aopt (st : bz) (x : option aexp) : option Q :=
+  match x with Some e => Some (aeval st e) | None => None end.
+Definition ashow (st : bz) (x : option aexp) : list Q :=
+  match x with Some e => [aeval st e] | None => [] end.
+
 Definition un_item (v : wv) : option item :=
   match v with
-  | WL [WI 0; f] => match un_q f with Some f => Some (Call (PlayTone f None)) | _ => None end
+  | WL [WI 0; f] =>
+      match un_ax f with
+      | Some f => Some (Call (fun st => PlayTone (aeval st f) None) (fun st => [aeval st f]))
+      | _ => None
+      end
   | WL [WI 1; f; d] =>
-      match un_q f, un_q d with Some f, Some d => Some (Call (PlayTone f (Some d))) | _, _ => None end
-  | WL [WI 2] => Some (Call Stop)
+      match un_ax f, un_q d with
+      | Some f, Some d => Some (Call (fun st => PlayTone (aeval st f) (Some d)) (fun st => [aeval st f]))
+      | _, _ => None
+      end
+  | WL [WI 2] => Some (Call (fun _ => Stop) (fun _ => []))
   | WL [WI 3; f; on; off; times] =>
-      match un_qopt f, un_q on, un_q off, un_q times with
-      | Some f, Some on, Some off, Some t => Some (Call (Beep f on off t))
+      match un_axopt f, un_q on, un_q off, un_q times with
+      | Some f, Some on, Some off, Some t =>
+          Some (Call (fun st => Beep (aopt st f) on off t) (fun st => ashow st f))
       | _, _, _, _ => None
       end
   | WL [WI 4; s; e; d; steps] =>
-      match un_q s, un_q e, un_q d, un_q steps with
-      | Some s, Some e, Some d, Some n => Some (Call (Sweep s e d n))
+      match un_ax s, un_ax e, un_q d, un_q steps with
+      | Some s, Some e, Some d, Some n =>
+          Some (Call (fun st => Sweep (aeval st s) (aeval st e) d n) (fun st => [aeval st s; aeval st e]))
       | _, _, _, _ => None
       end
   | WL [WI 5; name; tempo] =>
-      match un_text name, un_qopt tempo with
-      | Some nm, Some t => Some (Call (Melody nm t))
+      match un_text name, un_axopt tempo with
+      | Some nm, Some t => Some (Call (fun st => Melody nm (aopt st t)) (fun st => ashow st t))
       | _, _ => None
       end
   | WL [WI 6] => Some GetState
@@ -62,9 +105,10 @@ Definition w_ev (e : ev) : wv :=
 Fixpoint exec (pin : Z) (st : bz) (is : list item) : list wv * bz :=
   match is with
   | [] => ([], st)
-  | Call o :: r =>
-      let '(st1, evs) := dstep pin neg_literal emitter_melodies st o in
-      let '(out, st2) := exec pin st1 r in (map w_ev evs ++ out, st2)
+  | Call mk shown :: r =>
+      let '(st1, evs) := dstep pin neg_literal emitter_melodies st (mk st) in
+      let '(out, st2) := exec pin st1 r in
+      (WL (WI 9 :: map (fun x => wq (Qred x)) (shown st)) :: map w_ev evs ++ out, st2)
   | GetState :: r =>
       let '(out, st2) := exec pin st r in (WL [WI 3; wbool (get_state st)] :: out, st2)
   | GetFrequency :: r =>
@@ -77,7 +121,8 @@ Definition w_score (kv : text * score) : wv :=
   let '(k, (t, s)) := kv in
   WL [wtext k; wq t; WL (map (fun fb => WL [wq (fst fb); wq (snd fb)]) s)].
 
-(* case 0: (0 pin default (items...)) -> (0 (events and getter values...) (state current last))
+(* case 0: (0 pin default (items...)) -> (0 (events and getter values...) (state current last));
+           before the events of every call: (9 v...) = the values its frequency-type arguments had
    case 1: (1 name) -> (0 accepted lowered has_emitter_score)     parser side of melody()
    case 2: (2) -> the pinned specification scores (Device/MelodySpec.v) *)
 Definition run (v : wv) : wv :=
